@@ -1225,6 +1225,42 @@ let installs_of (evs : string list) : pop list =
       | _ -> [])
     evs
 
+(* the file operations of a step as the harness prints them; appends to logs are left out on both
+   sides (the foreground appends while the background thread works), runs of removals are sorted *)
+let fname_str = function
+  | FCurrent -> "CURRENT" | FLock -> "LOCK"
+  | FManifest n -> "MANIFEST-" ^ string_of_n n ^ ".manifest"
+  | FWal n -> "wal-" ^ string_of_n n ^ ".log"
+  | FTable n -> string_of_n n ^ ".rdb"
+  | FTemp n -> string_of_n n ^ ".dbtemp"
+
+let norm_ops (l : string list) : string list =
+  let l = List.filter (fun t -> not (String.length t > 6 && String.sub t 0 6 = "w:wal-") && not (String.length t > 1 && t.[0] = 'a')) l in
+  (* collapse consecutive equal writes, sort runs of removals *)
+  let rec collapse = function
+    | a :: (b :: _ as r) when a = b && String.length a > 1 && a.[0] = 'w' -> collapse r
+    | a :: r -> a :: collapse r
+    | [] -> [] in
+  let l = collapse l in
+  let rec runs acc cur = function
+    | [] -> List.rev (if cur = [] then acc else List.rev_append (List.rev (List.sort compare cur)) acc)
+    | t :: r when String.length t > 1 && t.[0] = 'd' -> runs acc (t :: cur) r
+    | t :: r -> runs (t :: (if cur = [] then acc else List.rev_append (List.rev (List.sort compare cur)) acc)) [] r in
+  runs [] [] l
+
+let fsops_diff (real : string) (effects : fsop list) : string option =
+  let model =
+    List.concat_map (function
+      | FsCreate f -> [ "c:" ^ fname_str f ]
+      | FsAppend (f, _) -> [ "w:" ^ fname_str f ]
+      | FsTable (n, _) -> [ "w:" ^ string_of_n n ^ ".rdb" ]
+      | FsRename n -> [ "r:" ^ string_of_n n ^ ".dbtemp>CURRENT" ]
+      | FsRemove f -> [ "d:" ^ fname_str f ]) effects in
+  let r = norm_ops (if real = "-" then [] else String.split_on_char ',' real) in
+  let m = norm_ops model in
+  if r = m then None
+  else Some (Printf.sprintf "implementation [%s], model [%s]" (String.concat "," r) (String.concat "," m))
+
 let suite_proto (line : string) : string =
   match split_nonempty ' ' line with
   | id :: segs ->
@@ -1235,14 +1271,21 @@ let suite_proto (line : string) : string =
         (fun si seg ->
           if !problem = None then
             match String.split_on_char '%' seg with
-            | [ op; res; evs; img ] when evs <> "closed" ->
+            | op :: res :: evs :: img :: rest when evs <> "closed" ->
+                let real_ops = match rest with [ x ] -> Some x | _ -> None in
                 incr nsegs;
                 let evl = if evs = "-" then [] else String.split_on_char '|' evs in
                 let real = parse_image img in
                 let run pops =
                   let st, _ = p_run !state pops in st in
                 let finish pops =
-                  let st = run pops in
+                  let st, effects = p_run !state pops in
+                  (match real_ops with
+                   | Some r when !problem = None && not st.pr_failed ->
+                       (match fsops_diff r effects with
+                        | Some d -> problem := Some (Printf.sprintf "op %d %s: order of file operations: %s" si (if String.length op > 40 then String.sub op 0 40 else op) d)
+                        | None -> ())
+                   | _ -> ());
                   nsteps := !nsteps + List.length pops;
                   state := st;
                   if st.pr_failed then problem := Some (Printf.sprintf "op %d %s: the model's step fails (open error or assertion)" si (String.sub op 0 1))
